@@ -108,6 +108,9 @@ def corpus(seed):
     for i in range(25):
         text, _, _ = fedgen.fed_query(r, single=(i % 4 == 0))
         out.append((f'plan-fed:{i}', 'plan', text))
+    # sub-queries inside ON clauses (placeholders for them must not be named after anything of the process, such as an object's address)
+    for i in range(6):
+        out.append((f'plan-on-sub:{i}', 'plan', fedgen.subquery_in_on(r)))
     vers = ['', '.3', '.7', '.12', '']
     for i in range(25):
         v = vers[i % len(vers)]
